@@ -5,7 +5,7 @@ PROP = {
     "minimize": True,   # harness implements `--only i --keep p0,p1,..` (notes/minimisation.md)
     "coq_targets": ["theories/Cfg/C15Check"],
     "n": {"quick": 600, "thorough": 12000},
-    "theorems": ["cfg_inv_preserved", "s_run_inv", "sinv_cfg_inv", "blockify_reachable", "merge_lang", "merge_step_lang", "append_struct", "append_runs_first_then_second", "insert_struct", "rho_fresh_injective", "graph_inv_preserved", "adjacency_agrees", "history_refines", "e_run_refines", "fourmap_cfg_inv", "fourmap_merge_lang"],
+    "theorems": ["cfg_inv_preserved", "s_run_inv", "sinv_cfg_inv", "blockify_reachable", "merge_lang", "merge_step_lang", "merge_clang", "merge_step_clang", "append_struct", "append_runs_first_then_second", "insert_struct", "rho_fresh_injective", "graph_inv_preserved", "adjacency_agrees", "history_refines", "e_run_refines", "fourmap_cfg_inv", "fourmap_merge_lang"],
     "rule": "one history per case from one xoshiro256** stream per (seed,index): 1-3 graphs from ControlFlowGraph::new(), 1-50 operations "
             "(new_block, un/conditional_edge incl. self-loops and duplicate guards, set_entry/exit, Block pushes, remove_instruction, set_address, "
             "merge, append/insert of any graph of the case, blockify), block indices mostly existing, 1/12 arbitrary (failing operations); "
